@@ -271,7 +271,8 @@ func (fx *FnCtx) findLoops() {
 					}
 				}
 				if st, ok := in.(*ssa.Store); ok {
-					if a, ok := st.Addr.(*ssa.Alloc); ok && a.Comment == "rangeindex" && fx.innermost(b) == li {
+					// the range index is incremented in the loop header itself
+					if a, ok := st.Addr.(*ssa.Alloc); ok && a.Comment == "rangeindex" && b == li.header {
 						li.rangeIdx = a
 					}
 				}
